@@ -174,7 +174,7 @@ impl Display for LinearConstraint {
         let rhs = if self.rhs.is_zero() {
             "0".to_string()
         } else {
-            self.rhs.to_string()
+            crate::utils::number_to_source(self.rhs)
         };
         write!(f, "{} {} {}", lhs, self.constraint_type, rhs)
     }
@@ -677,7 +677,7 @@ impl Display for LinearModel {
             let rhs = if c.rhs.is_zero() {
                 "0".to_string()
             } else {
-                c.rhs.to_string()
+                crate::utils::number_to_source(c.rhs)
             };
             let name = if c.name.is_empty() {
                 "".to_string()
@@ -712,9 +712,15 @@ impl Display for LinearModel {
         let offset = if self.objective_offset.is_zero() {
             "".to_string()
         } else if self.objective_offset < 0.0 {
-            format!(" - {}", self.objective_offset.abs())
+            format!(
+                " - {}",
+                crate::utils::number_to_source(self.objective_offset.abs())
+            )
         } else {
-            format!(" + {}", self.objective_offset)
+            format!(
+                " + {}",
+                crate::utils::number_to_source(self.objective_offset)
+            )
         };
         let objective = format!("{}{}", objective, offset);
         let domain: String = if !self.domain.is_empty() {
